@@ -117,7 +117,7 @@ TEXTS = {
         "text": "Lean theorems on the exact model of the multi-line string re-indenter (line-by-line specification: values unchanged, exact "
                 "indentation, configured terminators, rejection rule, untouched when off/ignored; re-indentation changes blanks only: mls_only_blanks_change; reading the new lines relative to the new indentation gives back the old values: mls_values_preserved). The model is checked against the "
                 "wrapper stage's before/after token contents on every case and a per-literal value oracle runs on the real formatter "
-                "over a targeted family (3/5/7 quotes, LF/CR/CRLF, tab/space/U+3000/control indentation, short/blank/over-indented lines). End to end from mlsRewrite (Proofs/MlsMore): mls_indent_exact / mls_indent_exact_lines (after rewriting, the closing quotes and every non-empty interior line start with exactly ind indentation units and cont continuation units), mls_value_full (the literal's value, defined independently of the rewriter, is unchanged), mls_rewrite_idem (a second application changes nothing), mls_still_one_token (the rewritten text still scans as one multi-line literal), lines_custom_splits_at_terminators; counterexample theorems for each hypothesis.",
+                "over a targeted family (3/5/7 quotes, LF/CR/CRLF, tab/space/U+3000/control indentation, short/blank/over-indented lines). End to end from mlsRewrite (Proofs/MlsMore): mls_indent_exact / mls_indent_exact_lines (after rewriting, the closing quotes and every non-empty interior line start with exactly ind indentation units and cont continuation units), mls_value_full (the literal's value, defined independently of the rewriter, is unchanged), mls_rewrite_idem (a second application changes nothing), mls_still_one_token (the rewritten text still scans as one multi-line literal), lines_custom_splits_at_terminators; counterexample theorems for each hypothesis. End to end for the closed model of the whole formatter, with no side condition on the input (Proofs/MlsPipeline, ParserLiterals): formatFull_mls_values (for every scanned multi-line literal the final token has the same kind, still ends in a quote and has the same value; its text is the scanned one after at most two applications of the re-indenter, and exactly the scanned one inside verbatim regions and when format_multiline_strings=false), formatFull_mls_rejected_verbatim / formatFull_mls_bad_line_verbatim (a literal violating the indentation rule is reproduced byte for byte), parser_keeps_literals (the parser model never retypes a text literal: an invariant over its whole control flow), rules_keep_literals, scanned_mls_ends_quote, stage_mls_contents.",
         "design_ref": "DESIGN.md section 5 (C12), 12.8",
         "note": "Hypothesis 'the literal ends in a quote' is discharged from the scanner side by mls_token_ends_quote. Trusted: Lean kernel, translator, harness, model.",
         "technique": "Lean 4 proof over executable model + differential correspondence + direct oracle",
